@@ -227,6 +227,39 @@ def native_repro(ck):
     return {"violated": bool(diff), "input": {"seed": ck.seed + 11, "thrown_events": 400, "config": "default (Diffuse, mono, optical + radio, 525 km)"}, "observed": {"columns that differ between the two runs": diff[:6]}}
 
 
+def native_schedulers_and_frame(ck):
+    """(a) the shower kernel under the multi-process scheduler for a detector away from the reference orbit (shared with C10);
+    (b) compute() leaves the configuration object it is given untouched, so that a second run with the same object is a run of that configuration"""
+    import contextlib
+    import copy
+    import importlib
+    import io
+
+    import dask
+    from contracts import C10
+    from nuspacesim.config import NssConfig
+
+    fails = list(C10.processes_design(ck))
+    n = 9
+    C = importlib.import_module("nuspacesim.compute")
+    for alt in (33.0, 525.0):
+        cfg = NssConfig()
+        cfg.detector.initial_position.altitude = alt
+        cfg.simulation.thrown_events = 120
+        before = copy.deepcopy(cfg.model_dump())
+        with contextlib.redirect_stdout(io.StringIO()), contextlib.redirect_stderr(io.StringIO()), dask.config.set(scheduler="synchronous"), np.errstate(all="ignore"):
+            np.random.seed(ck.seed + 5)
+            C.compute(cfg)
+        n += 1
+        after = cfg.model_dump()
+        if after != before:
+            diff = [k for k in before if before[k] != after.get(k)]
+            sub = {k: [kk for kk in before[k] if isinstance(before[k], dict) and before[k].get(kk) != after[k].get(kk)] for k in diff if isinstance(before[k], dict)}
+            fails.append({"obligation": "bounded.config_untouched", "clause": "compute() does not modify the configuration object it is given (a later run with the same object runs that configuration)",
+                          "input": {"detector_altitude": alt, "thrown_events": 120}, "observed": {"sections that changed": sub or diff}})
+    return {"evaluations": n, "failures": fails}
+
+
 def rng_sources(ck):
     """every random draw of the simulation goes through numpy's seeded global generator: no stage builds a generator of its own, uses
     the `random` / `secrets` modules, os.urandom or the clock.  Decided on the ASTs of every module under nuspacesim/simulation, utils and compute.py."""
@@ -294,5 +327,7 @@ def run(ck):
     from contracts import C03
 
     C03.target_checks(ck, [("Optical", True, False)], quick=True, lemmas_for=())
+    ck.bounded_run("kernel under the multi-process scheduler at 33 km; configuration object untouched by compute()", lambda: native_schedulers_and_frame(ck),
+                   design="9 events, scheduler=processes (2 workers), detector at 33 km vs one-at-a-time; compute() with 120 thrown events at 33 km and 525 km: model_dump() of the given configuration before == after")
     if ck.tier == "thorough":
         ck.bounded_run("seeded end-to-end runs", lambda: bounded_seeded(ck), design="{Diffuse, Target(33 km)} x {mono, power-law} x {both, optical only, radio only}; synchronous vs threaded scheduler; bit-for-bit")
